@@ -133,8 +133,10 @@ class Run:
     if self.notes:
       ev["coverage"]["notes"] = self.notes
     ev["coverage"]["repo_head"] = repo_head()
-    os.makedirs(os.path.join(VERIF, "evidence"), exist_ok=True)
-    with open(os.path.join(VERIF, "evidence", self.prop + ".json"), "w") as f:
+    # runs against a CHANGED tree (tools/try_mutant_wt.sh) must not overwrite the evidence of the real tree
+    evdir = os.path.join(VERIF, ".work", "evidence_of_changed_trees") if os.environ.get("VERIF_SCRATCH_EVIDENCE") else os.path.join(VERIF, "evidence")
+    os.makedirs(evdir, exist_ok=True)
+    with open(os.path.join(evdir, self.prop + ".json"), "w") as f:
       json.dump(ev, f, indent=1, sort_keys=True, default=str)
     for k, w in sorted(self.known_hits.items()):
       print("KNOWN-FINDING: property=%s %s [%s]" % (self.prop, w, k))
